@@ -181,7 +181,9 @@ func pickS(rng *rand.Rand, xs ...string) string { return xs[rng.Intn(len(xs))] }
 
 func randomPlan(rng *rand.Rand, run int) Plan {
 	sc := Sc{Ver: recVersions[rng.Intn(len(recVersions))], RV: "known", InRoom: rng.Intn(5) != 0, JR: "public", Mem: "none", Allow: []string{},
-		APL: "ok", AHere: true, TB: "ok", QErr: "none", Known: true, UQ: "ok", Stripped: "none", Extra: "none", Env: "ok", FB: 9}
+		APL: "ok", AHere: true, TB: "ok", QErr: "none", Known: true, UQ: "ok", Stripped: "none", Extra: "none", Env: "ok", Oth: "none", FB: 9}
+	// rows of R's tables under the identities that are not the member's sender ID: never the handlers' business
+	sc.Oth = pickS(rng, "none", "none", "ban", "invite", "join")
 	flow := pickS(rng, "join", "join", "join", "leave", "invite")
 	switch flow {
 	case "join":
